@@ -58,6 +58,8 @@ pub struct Shared {
 	pub step_ranges: Vec<StepRange>,
 	/// how the last API call ended: "ok", "err", "panic:fault", "panic:killed", "panic:user", ...
 	pub last_outcome: String,
+	/// next lock id for locks made by OwnedTemp steps (0 = none made yet)
+	pub temp_lid_next: Lid,
 }
 
 #[derive(Clone, Debug, Default, serde::Serialize)]
@@ -856,6 +858,9 @@ pub fn run_step(env: &Env, ctx: &mut ThreadCtx, idx: usize, step: &Step) -> Step
 		Step::ParkKey { cont, route } => {
 			executed = step_park_key(env, ctx, *cont, *route);
 		}
+		Step::OwnedTemp { shape, leak, kill, op } => {
+			executed = step_owned_temp(env, ctx, *shape, *leak, *kill, *op);
+		}
 		Step::ProbeKeyMany { n } => {
 			// a refused request must stay refused however often it is repeated
 			let alive = ctx.key_alive();
@@ -1077,6 +1082,148 @@ pub fn run_step(env: &Env, ctx: &mut ThreadCtx, idx: usize, step: &Step) -> Step
 		probe_key(env, ctx, ctx.key_alive(), "after step");
 	}
 	StepEnd::Continue
+}
+
+pub const TEMP_SHAPES: u8 = 10;
+
+/// One owned value over fresh locks `lids` (all of one mode), taken through
+/// leak / kill / a non-acquiring operation that needs ownership.
+#[allow(clippy::too_many_arguments)]
+fn temp_ops<T: std::fmt::Debug + happylock::lockable::RawLock>(
+	env: &Env,
+	ctx: &mut ThreadCtx,
+	key: ThreadKey,
+	label: &str,
+	obj: T,
+	lids: &[Lid],
+	shared_leak: bool,
+	leak: bool,
+	kill: bool,
+	op: u8,
+	do_leak: impl FnOnce(&T, ThreadKey),
+	get_mut: impl FnOnce(&mut T),
+	into_inner: impl FnOnce(T),
+	into_child: impl FnOnce(T),
+) {
+	let tid = ctx.tid;
+	if leak {
+		do_leak(&obj, key);
+		ctx.key_lost = true;
+		for l in lids {
+			env.sh().leaked.push((tid, *l, shared_leak));
+		}
+		env.label("owned_temp_leaked");
+	} else {
+		ctx.key = Some(key);
+	}
+	if kill {
+		happylock::lockable::RawLock::poison(&obj);
+		env.label("owned_temp_killed");
+	}
+	let opname = ["get_mut", "into_inner", "into_child", "debug"][(op % 4) as usize];
+	non_acquiring(env, tid, &format!("{opname} of an owned {label}"), move || match op % 4 {
+		0 => {
+			let mut o = obj;
+			get_mut(&mut o);
+			drop(o)
+		}
+		1 => into_inner(obj),
+		2 => into_child(obj),
+		_ => {
+			let _ = format!("{obj:?}");
+			drop(obj)
+		}
+	});
+}
+
+fn step_owned_temp(env: &Env, ctx: &mut ThreadCtx, shape: u8, leak: bool, kill: bool, op: u8) -> bool {
+	use crate::types::R;
+	use crate::world::{new_m, new_r};
+	use happylock::collection::{BoxedLockCollection as Boxed, OwnedLockCollection as Owned, RetryingLockCollection as Retry};
+	use happylock::Poisonable;
+	if ctx.guard.is_some() {
+		return false;
+	}
+	let Some(mut key) = ctx.key.take() else { return false };
+	let base = {
+		let mut sh = env.sh();
+		if sh.temp_lid_next == 0 {
+			sh.temp_lid_next = env.sem.nlocks as Lid + 8;
+		}
+		let b = sh.temp_lid_next;
+		sh.temp_lid_next += 2;
+		b
+	};
+	let (a, b) = (base, base + 1);
+	env.exec.ensure_locks(b as usize + 1);
+	let shape = shape % TEMP_SHAPES;
+	match shape {
+		0 => {
+			let o = new_m(a, &mut key);
+			temp_ops(env, ctx, key, "Mutex", o, &[a], false, leak, kill, op, |o, k| std::mem::forget(o.lock(k)), |o| { let _ = o.get_mut(); }, |o| drop(o.into_inner()), |o| drop(o.into_inner()))
+		}
+		1 => {
+			let o = new_r(a, &mut key);
+			let sh = op & 4 != 0;
+			temp_ops(
+				env,
+				ctx,
+				key,
+				"RwLock",
+				o,
+				&[a],
+				sh,
+				leak,
+				kill,
+				op,
+				move |o: &R, k| {
+					if sh {
+						std::mem::forget(o.read(k))
+					} else {
+						std::mem::forget(o.write(k))
+					}
+				},
+				|o| {
+					let _ = o.get_mut();
+				},
+				|o| drop(o.into_inner()),
+				|o| drop(o.into_inner()),
+			)
+		}
+		2 => {
+			let o = Poisonable::new(new_m(a, &mut key));
+			temp_ops(env, ctx, key, "Poisonable<Mutex>", o, &[a], false, leak, kill, op, |o, k| std::mem::forget(o.lock(k)), |o| drop(o.get_mut()), |o| drop(o.into_inner()), |o| drop(o.into_child()))
+		}
+		3 => {
+			let o = Poisonable::new(new_r(a, &mut key));
+			temp_ops(env, ctx, key, "Poisonable<RwLock>", o, &[a], true, leak, kill, op, |o, k| std::mem::forget(o.read(k)), |o| drop(o.get_mut()), |o| drop(o.into_inner()), |o| drop(o.into_child()))
+		}
+		4 => {
+			let o = Owned::new([new_m(a, &mut key), new_m(b, &mut key)]);
+			temp_ops(env, ctx, key, "Owned<[Mutex;2]>", o, &[a, b], false, leak, kill, op, |o, k| std::mem::forget(o.lock(k)), |o| drop(o.get_mut()), |o| drop(o.into_inner()), |o| drop(o.into_child()))
+		}
+		5 => {
+			let o = Poisonable::new(Owned::new([new_r(a, &mut key), new_r(b, &mut key)]));
+			temp_ops(env, ctx, key, "Poisonable<Owned<[RwLock;2]>>", o, &[a, b], true, leak, kill, op, |o, k| std::mem::forget(o.read(k)), |o| drop(o.get_mut()), |o| drop(o.into_inner()), |o| drop(o.into_child()))
+		}
+		6 => {
+			let o = Retry::new(vec![new_r(a, &mut key), new_r(b, &mut key)]);
+			temp_ops(env, ctx, key, "Retry<Vec<RwLock>>", o, &[a, b], false, leak, kill, op, |o, k| std::mem::forget(o.lock(k)), |o| drop(o.get_mut()), |o| drop(o.into_inner()), |o| drop(o.into_child()))
+		}
+		7 => {
+			let o = Poisonable::new(Retry::new([new_m(a, &mut key), new_m(b, &mut key)]));
+			temp_ops(env, ctx, key, "Poisonable<Retry<[Mutex;2]>>", o, &[a, b], false, leak, kill, op, |o, k| std::mem::forget(o.lock(k)), |o| drop(o.get_mut()), |o| drop(o.into_inner()), |o| drop(o.into_child()))
+		}
+		8 => {
+			let o = Boxed::new([new_m(a, &mut key), new_m(b, &mut key)]);
+			temp_ops(env, ctx, key, "Boxed<[Mutex;2]>", o, &[a, b], false, leak, kill, op, |o, k| std::mem::forget(o.lock(k)), |o| { let _ = o.iter().count(); }, |o| drop(o.into_inner()), |o| drop(o.into_child()))
+		}
+		_ => {
+			let o = Poisonable::new(Boxed::new(vec![new_r(a, &mut key), new_r(b, &mut key)]));
+			temp_ops(env, ctx, key, "Poisonable<Boxed<Vec<RwLock>>>", o, &[a, b], true, leak, kill, op, |o, k| std::mem::forget(o.read(k)), |o| drop(o.child_mut()), |o| drop(o.into_inner()), |o| drop(o.into_child()))
+		}
+	}
+	true
 }
 
 type Slot = Option<ThreadKey>;
